@@ -188,6 +188,8 @@ class Interp:
         self.path = []  # (atom, bool, site)
         self.decided = {}
         self.lazy_cache = {}
+        self.listlen = {}
+        self.generic_loop_fixed = None
         self.div_zero_fork = False
         self.exc_stack = []
         self.depth = 0
@@ -754,7 +756,18 @@ class Interp:
                     continue
             self.emit("loop_end", "for", node=s, extra="break" if broke else None)
         else:
-            k = self.choose(self.generic_loop_max + 1, ("loop", self.site(s)))
+            lk = getattr(items, "uid", None)
+            src = getattr(items, "source", None)
+            if src is not None and getattr(src, "uid", None) is not None:
+                lk = src.uid
+            if lk is not None and lk in self.listlen:
+                k = self.listlen[lk]
+            elif self.generic_loop_fixed is not None:
+                k = self.generic_loop_fixed
+            else:
+                k = self.choose(self.generic_loop_max + 1, ("loop", self.site(s)))
+                if lk is not None:
+                    self.listlen[lk] = k
             self.emit("loop_begin", "for", [k], node=s, extra=("generic", items))
             for i in range(k):
                 self.assign(s.target, self.generic_elem(items, i), fr)
@@ -1344,6 +1357,8 @@ class Interp:
                     if g is not None and s_ is not None:
                         return self.call(self.bind(g, v, gc), [obj, obj.cls], {}, node)
             if name in obj.fields:
+                if self.hooks is not None and hasattr(self.hooks, "on_read"):
+                    return self.hooks.on_read(self, obj, name, obj.fields[name], node)
                 return obj.fields[name]
             if c is not None:
                 if isinstance(v, Obj) and v.cls.qualname not in self.record_ctor:
@@ -1600,6 +1615,10 @@ class Interp:
             fr.locals[self.mangle(k, fr)] = v
         if params and args or params and params[0] in vals:
             fr.self_arg = vals.get(params[0]) if params else None
+        if self.hooks is not None and hasattr(self.hooks, "intercept"):
+            r = self.hooks.intercept(self, f, vals, node)
+            if r is not NotImplemented:
+                return r
         self.frames.append(fr)
         if self.hooks is not None and hasattr(self.hooks, "on_enter"):
             self.hooks.on_enter(self, f, vals, node)
